@@ -99,7 +99,7 @@ def gen_history(rng, t, enc, nops):
                 else:
                     p = rng.randrange(L)
             here = False
-            if enc != "text" and a and rng.random() < 0.15:      # (a field without a data file has no I/O position yet)
+            if enc != "text" and a and ptr is not None and rng.random() < 0.15:      # (a field without a data file has no I/O position yet)
                 p = ptr; here = True      # GD_HERE: the write lands at the I/O pointer
             mixed = rng.random() < 0.2 and not here
             if enc == "text":
@@ -153,6 +153,11 @@ def gen_history(rng, t, enc, nops):
             else:
                 ops.append(("G",))
                 ptr = len(a)          # the whole field was read: the pointer is at the end of the field
+        elif r < 0.84 and enc != "text" and a:
+            # gd_seek in read mode (GD_SEEK_SET), also past the end of the field: moves the I/O pointer, changes no data
+            kx = rng.choice([rng.randint(0, len(a)), len(a), len(a) + rng.randint(1, 6)])
+            ops.append(("K", kx, len(a)))
+            ptr = kx if kx <= len(a) else None      # past the end the resulting position is encoding specific (gd_seek(3))
         elif r < 0.88:
             ops.append(("F",)); ptr = 0      # the raw file is closed; it reopens at its beginning
         elif r < 0.93:
@@ -237,6 +242,8 @@ def main():
                     sc.append("get a %d %d 0 %d" % (t, off, n))
                     expect.append(("get", [x for v in a for x in v]))
                     ml.append("G 0 %d" % n)
+                elif op[0] == "K":
+                    sc.append("seek a %d %d 0" % (off, op[1])); expect.append(("seek", off * spf + op[1], off * spf + min(op[1], op[2]))); ml.append("K %d" % op[1])
                 elif op[0] == "F":
                     sc.append("flush a"); expect.append(("rc0",)); ml.append("F")
                 elif op[0] == "S":
@@ -307,6 +314,8 @@ def main():
                     bad = bad or "%s -> %s" % (line[:120], got)
             elif ex[0] == "rc0" and not got.endswith(" 0"):
                 bad = bad or "%s -> %s" % (line, got)
+            elif ex[0] == "seek" and got not in ("seek %d 0" % ex[1], "seek %d 0" % ex[2]):
+                bad = bad or "%s -> %s (expected position %d, or the end of the field %d)" % (line, got, ex[1], ex[2])
             elif ex[0] == "get":
                 stats["gets"] += 1
                 g = gdlib.parse_get(got)
